@@ -34,11 +34,12 @@ CLAIMED = {
  "C18": ("proof", "the contract is the sorted-map machine kvStep; proved: namespace = half-open range up to the cut incremented prefix for every non-empty prefix (0xFF runs included) and the counterexample for the former same-length bound, no empty key / nil value stored, reads pure; MemDB, GoLevelDB, PrefixDB over both are run on identical generated programs (0x00/0xFF alphabet, foreign neighbour keys, batches) and compared with the contract and with each other", "5.C18", T_PROOF),
 }
 
+CLAIMED["C19"] = ("translation_validation", "the SQLite-backed v2 tree is run on normal-form histories (at most one write or removal per key per version, empty versions, trees shrinking to empty) over the option grid (checkpoint interval, height filter, eviction depth, sharding) and every commit hash, lookup, existence test, size, height and forward / reverse / inclusive iteration is compared with the Lean model of v1 (itself proved equal to the versioned map, C01, and hashing canonically, C02); no v2-specific theorem yet (v2_eq_v1 is a goal)", "5.C19", "v2 implementation vs the proved v1 model on generated histories")
+CLAIMED["C20"] = ("translation_validation", "close / reopen / LoadVersion of every retained version (on, just after and far after a checkpoint), continuing the history after a restart at the latest version, DeleteVersionsTo followed by reopen, SaveSnapshot+LoadSnapshot and Export(pre/post)+WriteSnapshot+LoadSnapshot: hash and contents compared with the model of that version; K22 (continuing from an older version) recorded", "5.C20", "v2 implementation vs the proved v1 model on generated histories")
+
 NA = {
  "C06": "check not built yet (schedule exploration through the verif yield hooks is planned, DESIGN 5.C06)",
  "C16": "check not built yet (legacy database generator + dual-format model pending)",
- "C19": "check not built yet (v2 harness pending)",
- "C20": "check not built yet (v2 harness pending)",
 }
 
 
@@ -53,6 +54,7 @@ def main():
                   "add_only": True},
         "engines": [
             {"name": "lean-model", "path": "lean", "serves_properties": sorted(CLAIMED), "kind_free_text": "Lean 4 model, theorems (Iavl/Props), compiled driver"},
+            {"name": "harness-v2", "path": "harness/v2", "serves_properties": ["C19", "C20"], "kind_free_text": "Go correspondence harness for iavl/v2 (cgo sqlite), build tag verif"},
             {"name": "harness-v1", "path": "harness/v1", "serves_properties": sorted(CLAIMED), "kind_free_text": "Go correspondence harness (modes exec, kv, crash, fault), build tag verif"}],
         "checks": [],
         "not_applicable": [{"property_id": k, "reason": v} for k, v in sorted(NA.items())],
